@@ -2,7 +2,7 @@
 
 namespace Generated.FrontFacts
 
-def recursive : List (String × String) := [("_build.py", "Builder.discover"), ("_standard.py", "_strip_dim_symbol"), ("_inline.py", "rename_in_graph")]
+def recursive : List (String × String) := [("_build.py", "Builder.discover"), ("_standard.py", "_dim_symbols"), ("_standard.py", "_strip_dim_symbol"), ("_inline.py", "rename_in_graph")]
 
 def introFacts : List (String × Bool) := [("intros_returns_fresh_outputs", true), ("intro_results_from_intros", true), ("intro_uses_intros", true), ("unsafe_cast_writes_fresh", true)]
 
